@@ -193,15 +193,16 @@ def run(v, tier, seed):
             rnd = random.Random("%s-%s-%d" % (seed, name, mi))
             shapes = shapes_for(nl, tier, rnd)
             if thorough:
-                # every n on the pristine images; every hostile variant on two shapes (sliced into 3 runs), sampled n
-                for k, chunk in enumerate(vlib.chunks(shapes, 3)):
-                    jobs.append(Job(S, stla, mi, chunk, True, 0, 0, sdir, "%s-m%d-p%d" % (name, mi, k)))
-                for r in range(3):
-                    jobs.append(Job(S, stla, mi, shapes[:2], False, 3, r, sdir, "%s-m%d-h%d" % (name, mi, r)))
+                # every n on the pristine images; every hostile variant on two shapes, sampled n
+                # (few, large TLC runs: a JVM start costs as much as several images)
+                jobs.append(Job(S, stla, mi, shapes, True, 0, 0, sdir, "%s-m%d-p" % (name, mi)))
+                k = 3 if nl >= 4 else 1
+                for r in range(k):
+                    jobs.append(Job(S, stla, mi, shapes[:2], False, k, r, sdir, "%s-m%d-h%d" % (name, mi, r)))
             else:
                 # sampled n; pristine images and every 8th hostile variant (rotating with the seed) of two shapes
                 jobs.append(Job(S, stla, mi, shapes, False, 8, seed % 8, sdir, "%s-m%d" % (name, mi)))
-    jobs.sort(key=lambda j: -(j.hvmod == 3) - viewpipe.count_levels(j.S["messages"][j.mi - 1]))   # long ones first
+    jobs.sort(key=lambda j: -(j.hvmod > 0) - 2 * viewpipe.count_levels(j.S["messages"][j.mi - 1]))   # long ones first
 
     with ThreadPoolExecutor(max_workers=2) as ex:
         fb = ex.submit(lambda: vlib.parallel([(p, c) for p in prep for c in configs],
